@@ -680,7 +680,10 @@ func (p *Parser) parseBuffer(buf []byte, last bool) (err error) {
 			if tf == nil {
 				return p.newError(off, "unexpected character '%c'", b)
 			}
-			v := tf(p.stack[start:]...)
+			// the function may keep its arguments: they are a slice of their own, not the parser's stack
+			args := make([]any, len(p.stack)-start)
+			copy(args, p.stack[start:])
+			v := tf(args...)
 			p.stack = p.stack[0 : start-1]
 			_ = p.add(v, off)
 			p.mode = valueMap
